@@ -3,7 +3,7 @@
    history (several repetitions of the whole history) and on fresh caches
    (several repetitions; a fresh process for corpus cases). The validator
    [history_independent_b] and the known-finding classification run here. *)
-From Apko Require Export Base.Prelude Model.Caches Spec.CachesSpec Model.CachesBridge Model.CachesIndex.
+From Apko Require Export Base.Prelude Model.Caches Spec.CachesSpec Model.CachesBridge Model.CachesIndex Model.CachesGrouped.
 From Apko Require Model.Resolver Corr.C02.
 Open Scope string_scope. Open Scope list_scope.
 
@@ -64,8 +64,9 @@ Definition grouping_eqb (a b : list (string * list idxid)) : bool :=
 Definition same_index_multiset (a b : list (string * list idxid)) : bool :=
   list_eqb Nat.eqb (sort_nats (List.concat (List.map snd a))) (sort_nats (List.concat (List.map snd b))).
 
-(* C08-F2's precondition: some other call of the history used the same indexes
-   under another architecture grouping *)
+(* the precondition of the former finding C08-F2 (fixed by 3541d7b; the tag stays,
+   unlisted, so that a regression is a VIOLATION): some other call of the history
+   used the same indexes under another architecture grouping *)
 Definition regrouped_precedent (others : list call) (c : call) : bool :=
   existsb (fun c' => same_index_multiset (cl_archs c') (cl_archs c) &&
                      negb (grouping_eqb (cl_archs c') (cl_archs c))) others.
@@ -102,12 +103,14 @@ Definition dq_tags (u : universe) (prec : bool) (c : call) (before : option (lis
    (if wrong then (if prec then ["viol:dq-cache-key-ignores-grouping"] else ["viol:dq-cache-entry-wrong"]) else []) ++
    tag_if (negb (pids_eqb (sort_pids after) (sort_pids handed))) "viol:dq-cache-entry-mutated-by-resolution").
 
-(* ---- the model of the disqualification trie, run over the history -------------- *)
+(* ---- the model of the disqualification trie, run over the history --------------
+   since fix 3541d7b a node keeps one entry per grouping: the cache layer with the
+   key function CachesGrouped.grouping_key (trie path + grouping) *)
 Definition unit_core (s : store) (_ : handles) (_ : list string) : store * unit := (s, tt).
 Definition model_step (u : universe) (x : state) (c : call) : state :=
-  fst (call_step (fun _ => []) (fun _ => []) (dq_difference u) (dq_key u) unit unit_core true x c).
+  fst (call_step (fun _ => []) (fun _ => []) (dq_difference u) (grouping_key u) unit unit_core true x c).
 Definition model_entry (u : universe) (x : state) (c : call) : option (list pid) :=
-  dq_entry (dq_key u) x (cl_archs c).
+  dq_entry (grouping_key u) x (cl_archs c).
 
 Definition opt_pids_eqb (a b : option (list pid)) : bool :=
   match a, b with
